@@ -9,6 +9,7 @@ import (
 	"fmt"
 	"sort"
 	"strings"
+	"sync"
 
 	"github.com/0chain/common/core/util/wmpt"
 	"pgregory.net/rapid"
@@ -378,4 +379,27 @@ func (m *Machine) Churn(rt *rapid.T, pool [][]byte, counter *int, label string) 
 		}
 	}
 	return n
+}
+
+var collideOnce sync.Once
+var collideA, collideB []byte
+
+// CollidingValues returns two different values of equal weight (by the rule WeightOf) whose value-record hashes agree
+// in their first four bytes - found once per process by a birthday search over a few hundred thousand candidates (the
+// kind of coincidence a real store meets once it holds billions of records). Nil, nil if the search finds none.
+func CollidingValues() ([]byte, []byte) {
+	collideOnce.Do(func() {
+		seen := map[[4]byte][]byte{}
+		for i := 0; i < 600000; i++ {
+			v := []byte{3, 0xc0, 0x00, 0x55, byte(i), byte(i >> 8), byte(i >> 16)} // v[2] = 0: never a wide weight
+			var k [4]byte
+			copy(k[:], refwmpt.ValueHash(v, WeightOf(v)))
+			if o, ok := seen[k]; ok {
+				collideA, collideB = o, v
+				return
+			}
+			seen[k] = v
+		}
+	})
+	return collideA, collideB
 }
